@@ -29,10 +29,12 @@ META = {
         "unit property of Units is the SI monomial in (kg, m, s) (Pa, J, N, W); `degree` is only required to be a "
         "multiple of rad (repo convention); every base unit attribute is read from the kwargs key of its own name and "
         "the permitted-key list equals the set of base units. Since Units forbids s != 1, a wrong exponent of s is "
-        "invisible to every run - only a table check sees it. R2: convert_units strips blanks, returns dimensionless "
-        "values untouched, splits on '*', parses name^power in that order, applies getattr(self, name) ** float(power), "
-        "multiplies (to_si) or divides (otherwise) by the same factor once per component, and works on a copy of an "
-        "ndarray argument. R3: every (transitive) subclass of Constants is a dataclass, annotates SI_units as ClassVar, "
+        "invisible to every run - only a table check sees it. R2: the syntax tree of convert_units is INTERPRETED by a small "
+        "interpreter (class UnitParser: concrete strings, symbolic units/value; nothing of porepy is imported or run) on a "
+        "handful of unit strings; the recorded arithmetic must be v / U(name) ** float(power) per '*' component in order "
+        "(v * ... for to_si), dimensionless markers return the value unchanged, and an ndarray argument is not updated "
+        "in place. The same interpreter parses every literal unit string of the repo for R4-R6, so the grammar checked is "
+        "the grammar implemented, whatever its coding. R3: every (transitive) subclass of Constants is a dataclass, annotates SI_units as ClassVar, "
         "has an SI_units entry (merged the way the code merges: dict(**Base.SI_units) + update) for every numeric field "
         "it declares or inherits, defines no __post_init__/__setattr__; Constants.__post_init__ pops exactly its own "
         "utility fields, converts with self.units.convert_units(v, <SI_units[k]>) and to_units rebuilds from "
@@ -46,9 +48,9 @@ META = {
                      "SI definitions of Pa, J, N, W", "sa.core"],
     "assumptions": ["the normaliser applied to a copy of each anchored function (guard-continue -> if/else, one level of same-module helper inlining incl. early returns, c34.normalise) preserves behaviour", "unit strings that are not literals (values of variables, tags read back) are covered at the literal "
                     "sites they originate from", "f-string exponents are integers"],
-    "technique": "table extraction + exact monomial normal form + dataflow on the parser loop",
+    "technique": "table extraction + exact monomial normal form + abstract interpretation of the unit-string parser",
 }
-MIN_INSTANCES = {"R1": 11, "R2": 8, "R3": 40, "R4": 50, "R5": 4, "R6": 3}
+MIN_INSTANCES = {"R1": 11, "R2": 9, "R3": 40, "R4": 50, "R5": 4, "R6": 3}
 
 
 # =====================================================================================
@@ -159,28 +161,9 @@ class UnitSystem:
         return Mono(m.coeff, m.pi_pow)
 
 
-def tokenise(text: str, strip_blanks: bool, shortcuts: list[str], known: set[str]):
-    """Run the parser's own grammar over a unit string. Returns (ok, reason, [(name, power)])."""
-    s = text.replace(" ", "") if strip_blanks else text
-    if s in shortcuts:
-        return True, "dimensionless", []
-    out = []
-    for part in s.split("*"):
-        if "^" in part:
-            bits = part.split("^")
-            if len(bits) != 2:
-                return False, f"component '{part}' has {len(bits) - 1} '^' (unpacking into name, power fails)", out
-            name, power = bits
-            try:
-                p = float(power)
-            except ValueError:
-                return False, f"exponent '{power}' of component '{part}' is not a number", out
-        else:
-            name, p = part, 1.0
-        if name not in known:
-            return False, f"'{name}' is not a unit of Units (known: {sorted(known)})", out
-        out.append((name, p))
-    return True, "", out
+def tokenise(text: str, parser, shortcuts, known: set[str]):
+    """(ok, reason, [(name, power)]) for a unit string: Units.convert_units itself is interpreted on it (see UnitParser)."""
+    return parser.tokens(text)
 
 
 def vector_of_string(tokens, us: UnitSystem) -> dict:
@@ -269,7 +252,407 @@ def _units_system(ctx: Ctx):
     return mod, cls, meths, us
 
 
-def _check_convert(ctx: Ctx, mod, cls, meths) -> tuple[bool, list[str]]:
+class _PyError(Exception):
+    """The analysed code would raise this Python exception on the given input (a RESULT of the interpretation)."""
+
+    def __init__(self, kind: str, msg: str):
+        super().__init__(f"{kind}: {msg}")
+        self.kind, self.msg = kind, msg
+
+
+class _Unit:
+    def __init__(self, name):
+        self.name = name
+
+    def __eq__(self, o):
+        return isinstance(o, _Unit) and o.name == self.name
+
+    def __repr__(self):
+        return f"U({self.name})"
+
+
+class _Op:
+    def __init__(self, op, a, b):
+        self.op, self.a, self.b = op, a, b
+
+    def __eq__(self, o):
+        return isinstance(o, _Op) and (o.op, o.a, o.b) == (self.op, self.a, self.b)
+
+    def __repr__(self):
+        return f"({self.a!r} {self.op} {self.b!r})"
+
+
+class _Val:
+    """the `value` argument: a scalar or an ndarray object (identity matters for in-place updates)"""
+
+    def __init__(self, is_array: bool, original: bool = True):
+        self.is_array, self.original = is_array, original
+        self.ops: list[tuple[str, object]] = []
+        self.mutated_original = False
+
+    def applied(self, op, f, inplace: bool):
+        if inplace and self.is_array:
+            self.ops.append((op, f))
+            if self.original:
+                self.mutated_original = True
+            return self
+        v = _Val(self.is_array, original=False)
+        v.ops = self.ops + [(op, f)]
+        v.mutated_original = self.mutated_original
+        return v
+
+    def copy(self):
+        v = _Val(self.is_array, original=False)
+        v.ops = list(self.ops)
+        return v
+
+
+class _Return(Exception):
+    def __init__(self, v):
+        self.v = v
+
+
+class _Continue(Exception):
+    pass
+
+
+class _Break(Exception):
+    pass
+
+
+class UnitParser:
+    """Small interpreter of Units.convert_units over CONCRETE unit strings and SYMBOLIC numbers: string operations are
+    evaluated as Python evaluates them, getattr(self, name) yields the symbol U(name), arithmetic on the value is recorded.
+    It interprets the syntax tree of the (normalised) method; nothing of porepy is imported or run."""
+
+    def __init__(self, mod, cls, fn: ast.FunctionDef, known: set[str]):
+        self.mod, self.cls, self.fn, self.known = mod, cls, fn, known
+        ps = [a.arg for a in fn.args.args]
+        self.SELF, self.VAL, self.UN, self.TOSI = ps[0], ps[1], ps[2], ps[3]
+        self.steps = 0
+
+    # ---- public ----------------------------------------------------------------------
+    def run(self, text: str, to_si: bool, is_array: bool = False):
+        """-> (_Val result, original _Val) or raises _PyError / Undecided"""
+        v0 = _Val(is_array)
+        env = {self.SELF: "SELF", self.VAL: v0, self.UN: text, self.TOSI: to_si}
+        self.steps = 0
+        try:
+            self.block(self.fn.body, env)
+        except _Return as r:
+            return r.v, v0
+        return None, v0
+
+    def tokens(self, text: str):
+        """(ok, reason, [(unit name, exponent)]) for a unit string, as the method itself parses it"""
+        try:
+            res, _ = self.run(text, False)
+        except _PyError as e:
+            return False, f"convert_units raises {e}", []
+        if not isinstance(res, _Val):
+            return False, "convert_units does not return the value", []
+        out = []
+        for op, f in res.ops:
+            if isinstance(f, _Unit):
+                out.append((f.name, 1.0))
+            elif isinstance(f, _Op) and f.op == "**" and isinstance(f.a, _Unit) and isinstance(f.b, (int, float)):
+                out.append((f.a.name, float(f.b)))
+            else:
+                return False, f"component evaluates to {f!r}, not unit ** number", out
+        return True, "", out
+
+    # ---- statements --------------------------------------------------------------------
+    def block(self, stmts, env):
+        for s in stmts:
+            self.steps += 1
+            if self.steps > 2000:
+                raise Undecided("Units.convert_units: interpretation does not terminate")
+            self.stmt(s, env)
+
+    def stmt(self, s, env):
+        if isinstance(s, ast.Expr):
+            if isinstance(s.value, ast.Constant):
+                return
+            self.ev(s.value, env)
+            return
+        if isinstance(s, ast.Assign) and len(s.targets) == 1:
+            self.bind(s.targets[0], self.ev(s.value, env), env)
+            return
+        if isinstance(s, ast.AnnAssign):
+            if s.value is not None:
+                self.bind(s.target, self.ev(s.value, env), env)
+            return
+        if isinstance(s, ast.AugAssign) and isinstance(s.target, ast.Name):
+            cur, rhs = env.get(s.target.id), self.ev(s.value, env)
+            env[s.target.id] = self.arith(type(s.op), cur, rhs, inplace=True)
+            return
+        if isinstance(s, ast.If):
+            self.block(s.body if self.truth(self.ev(s.test, env)) else s.orelse, env)
+            return
+        if isinstance(s, ast.For):
+            seq = self.ev(s.iter, env)
+            if not isinstance(seq, (list, tuple)):
+                raise Undecided(f"Units.convert_units: loop over `{u(s.iter)}` (not a concrete list)")
+            try:
+                for item in seq:
+                    self.bind(s.target, item, env)
+                    try:
+                        self.block(s.body, env)
+                    except _Continue:
+                        continue
+                else:
+                    self.block(s.orelse, env)
+            except _Break:
+                pass
+            return
+        if isinstance(s, ast.Return):
+            raise _Return(self.ev(s.value, env) if s.value is not None else None)
+        if isinstance(s, ast.Continue):
+            raise _Continue()
+        if isinstance(s, ast.Break):
+            raise _Break()
+        if isinstance(s, ast.Pass):
+            return
+        if isinstance(s, ast.Raise):
+            raise _PyError("raise", u(s)[:80])
+        raise Undecided(f"Units.convert_units: statement `{u(s)[:60]}` is outside the interpreter's fragment")
+
+    def bind(self, tg, v, env):
+        if isinstance(tg, ast.Name):
+            env[tg.id] = v
+        elif isinstance(tg, (ast.Tuple, ast.List)):
+            if not isinstance(v, (list, tuple)):
+                raise Undecided(f"Units.convert_units: unpacking of a non-sequence in `{u(tg)}`")
+            if len(v) != len(tg.elts):
+                raise _PyError("ValueError", f"cannot unpack {len(v)} value(s) {list(v)!r} into `{u(tg)}`")
+            for t, x in zip(tg.elts, v):
+                self.bind(t, x, env)
+        else:
+            raise Undecided(f"Units.convert_units: assignment target `{u(tg)}`")
+
+    # ---- expressions -------------------------------------------------------------------
+    def truth(self, v):
+        if isinstance(v, (bool, int, float, str, list, tuple, set, frozenset)) or v is None:
+            return bool(v)
+        raise Undecided("Units.convert_units: truth value of a symbolic quantity")
+
+    def arith(self, op, a, b, inplace=False):
+        sym = {ast.Mult: "*", ast.Div: "/", ast.Pow: "**", ast.Add: "+", ast.Sub: "-"}.get(op)
+        if sym is None:
+            raise Undecided("Units.convert_units: arithmetic operator outside the fragment")
+        if isinstance(a, _Val):
+            if sym not in ("*", "/"):
+                raise Undecided(f"Units.convert_units: value {sym} ...")
+            return a.applied(sym, b, inplace)
+        if isinstance(b, _Val):
+            if sym == "*":
+                return b.applied("*", a, False)
+            raise Undecided("Units.convert_units: value on the right of a non-commutative operator")
+        if isinstance(a, (int, float)) and isinstance(b, (int, float)) and not isinstance(a, bool):
+            try:
+                return {"*": a * b, "/": a / b, "**": a ** b, "+": a + b, "-": a - b}[sym]
+            except ZeroDivisionError:
+                raise _PyError("ZeroDivisionError", "")
+        if isinstance(a, str) and isinstance(b, str) and sym == "+":
+            return a + b
+        if isinstance(a, (list, tuple)) and isinstance(b, type(a)) and sym == "+":
+            return a + b
+        return _Op(sym, a, b)
+
+    def ev(self, e, env):
+        if isinstance(e, ast.Constant):
+            return e.value
+        if isinstance(e, ast.Name):
+            if e.id in env:
+                return env[e.id]
+            coll = _literal_collection(self.mod, self.cls, self.fn, e)
+            if coll is not None:
+                return self.ev(coll, env)
+            raise Undecided(f"Units.convert_units: unknown name `{e.id}`")
+        if isinstance(e, (ast.List, ast.Tuple, ast.Set)):
+            vals = [self.ev(x, env) for x in e.elts]
+            return vals if isinstance(e, ast.List) else (tuple(vals) if isinstance(e, ast.Tuple) else set(vals))
+        if isinstance(e, ast.Attribute):
+            d = dotted(e)
+            if d in ("np.ndarray", "numpy.ndarray"):
+                return "NDARRAY"
+            base = self.ev(e.value, env) if not (isinstance(e.value, ast.Name) and e.value.id in ("np", "numpy")) else None
+            if base == "SELF":
+                coll = _literal_collection(self.mod, self.cls, self.fn, e)
+                if coll is not None:
+                    return self.ev(coll, env)
+                return self.unit(e.attr)
+            raise Undecided(f"Units.convert_units: attribute `{u(e)}`")
+        if isinstance(e, ast.UnaryOp):
+            v = self.ev(e.operand, env)
+            if isinstance(e.op, ast.Not):
+                return not self.truth(v)
+            if isinstance(e.op, ast.USub) and isinstance(v, (int, float)):
+                return -v
+            raise Undecided(f"Units.convert_units: `{u(e)}`")
+        if isinstance(e, ast.BoolOp):
+            res = None
+            for x in e.values:
+                res = self.ev(x, env)
+                t = self.truth(res)
+                if isinstance(e.op, ast.And) and not t:
+                    return res
+                if isinstance(e.op, ast.Or) and t:
+                    return res
+            return res
+        if isinstance(e, ast.IfExp):
+            return self.ev(e.body if self.truth(self.ev(e.test, env)) else e.orelse, env)
+        if isinstance(e, ast.BinOp):
+            return self.arith(type(e.op), self.ev(e.left, env), self.ev(e.right, env))
+        if isinstance(e, ast.Compare) and len(e.ops) == 1:
+            a, b = self.ev(e.left, env), self.ev(e.comparators[0], env)
+            op = e.ops[0]
+            conc = (str, int, float, bool, list, tuple, set, frozenset, type(None))
+            if not isinstance(a, conc) or not isinstance(b, conc):
+                raise Undecided(f"Units.convert_units: comparison of symbolic quantities `{u(e)}`")
+            try:
+                if isinstance(op, ast.In):
+                    return a in b
+                if isinstance(op, ast.NotIn):
+                    return a not in b
+                if isinstance(op, ast.Eq):
+                    return a == b
+                if isinstance(op, ast.NotEq):
+                    return a != b
+                if isinstance(op, ast.Gt):
+                    return a > b
+                if isinstance(op, ast.GtE):
+                    return a >= b
+                if isinstance(op, ast.Lt):
+                    return a < b
+                if isinstance(op, ast.LtE):
+                    return a <= b
+                if isinstance(op, ast.Is):
+                    return a is b
+                if isinstance(op, ast.IsNot):
+                    return a is not b
+            except TypeError as ex:
+                raise _PyError("TypeError", str(ex))
+            raise Undecided(f"Units.convert_units: comparison `{u(e)}`")
+        if isinstance(e, ast.Subscript):
+            base = self.ev(e.value, env)
+            if isinstance(base, (list, tuple, str)):
+                if isinstance(e.slice, ast.Slice):
+                    lo = self.ev(e.slice.lower, env) if e.slice.lower is not None else None
+                    hi = self.ev(e.slice.upper, env) if e.slice.upper is not None else None
+                    st = self.ev(e.slice.step, env) if e.slice.step is not None else None
+                    return base[lo:hi:st]
+                k = self.ev(e.slice, env)
+                if not isinstance(k, int):
+                    raise Undecided(f"Units.convert_units: index `{u(e.slice)}`")
+                try:
+                    return base[k]
+                except IndexError:
+                    raise _PyError("IndexError", f"{base!r}[{k}]")
+            raise Undecided(f"Units.convert_units: subscript `{u(e)}`")
+        if isinstance(e, ast.Call):
+            return self.call(e, env)
+        if isinstance(e, ast.JoinedStr):
+            out = ""
+            for v in e.values:
+                x = self.ev(v.value if isinstance(v, ast.FormattedValue) else v, env)
+                if not isinstance(x, (str, int, float)):
+                    raise Undecided("Units.convert_units: f-string over a symbolic quantity")
+                out += str(x)
+            return out
+        if isinstance(e, (ast.ListComp, ast.GeneratorExp)) and len(e.generators) == 1:
+            g = e.generators[0]
+            seq = self.ev(g.iter, env)
+            if not isinstance(seq, (list, tuple, str)):
+                raise Undecided(f"Units.convert_units: comprehension over `{u(g.iter)}`")
+            out = []
+            for item in seq:
+                env2 = dict(env)
+                self.bind(g.target, item, env2)
+                if all(self.truth(self.ev(c, env2)) for c in g.ifs):
+                    out.append(self.ev(e.elt, env2))
+            return out
+        raise Undecided(f"Units.convert_units: expression `{u(e)[:60]}` is outside the interpreter's fragment")
+
+    def unit(self, name):
+        if not isinstance(name, str):
+            raise Undecided("Units.convert_units: getattr with a non-string name")
+        if name not in self.known:
+            raise _PyError("AttributeError", f"'{name}' is not a unit of Units (known: {sorted(self.known)})")
+        return _Unit(name)
+
+    def call(self, c: ast.Call, env):
+        name = call_name(c)
+        f = c.func
+        args = [self.ev(a, env) for a in c.args]
+        kw = {k.arg: self.ev(k.value, env) for k in c.keywords if k.arg}
+        if isinstance(f, ast.Name):
+            if name == "getattr" and len(args) == 2 and args[0] == "SELF":
+                return self.unit(args[1])
+            if name == "float" and len(args) == 1:
+                if isinstance(args[0], (int, float)):
+                    return float(args[0])
+                if isinstance(args[0], str):
+                    try:
+                        return float(args[0])
+                    except ValueError:
+                        raise _PyError("ValueError", f"could not convert string to float: {args[0]!r}")
+            if name == "int" and len(args) == 1 and isinstance(args[0], (str, int, float)):
+                try:
+                    return int(args[0])
+                except ValueError:
+                    raise _PyError("ValueError", f"invalid literal for int(): {args[0]!r}")
+            if name == "len" and len(args) == 1 and isinstance(args[0], (list, tuple, str, set)):
+                return len(args[0])
+            if name == "isinstance" and len(args) == 2:
+                kinds = args[1] if isinstance(args[1], tuple) else (args[1],)
+                if isinstance(args[0], _Val):
+                    return args[0].is_array and "NDARRAY" in kinds
+                if isinstance(args[0], str):
+                    return any(k == "STR" for k in kinds)
+                raise Undecided(f"Units.convert_units: `{u(c)}`")
+            if name in ("list", "tuple") and len(args) == 1 and isinstance(args[0], (list, tuple)):
+                return list(args[0]) if name == "list" else tuple(args[0])
+            if name == "str" and len(args) == 1 and isinstance(args[0], str):
+                return args[0]
+            if name in ("reversed",) and len(args) == 1 and isinstance(args[0], (list, tuple)):
+                return list(reversed(args[0]))
+            if name == "enumerate" and len(args) == 1 and isinstance(args[0], (list, tuple)):
+                return [(i, x) for i, x in enumerate(args[0])]
+            if name == "pow" and len(args) == 2:
+                return self.arith(ast.Pow, args[0], args[1])
+        if isinstance(f, ast.Attribute):
+            if isinstance(f.value, ast.Name) and f.value.id in ("np", "numpy", "math"):
+                if name == "copy" and len(args) == 1 and isinstance(args[0], _Val):
+                    return args[0].copy()
+                if name in ("array", "asarray") and len(args) == 1 and isinstance(args[0], _Val):
+                    return args[0].copy() if (name == "array" and kw.get("copy", True)) else args[0]
+                if name in ("power", "pow") and len(args) == 2:
+                    return self.arith(ast.Pow, args[0], args[1])
+                if name == "float64" and len(args) == 1 and isinstance(args[0], (int, float)):
+                    return float(args[0])
+                raise Undecided(f"Units.convert_units: call `{u(c)[:60]}`")
+            recv = self.ev(f.value, env)
+            if isinstance(recv, str):
+                try:
+                    if name in ("replace", "split", "rsplit", "partition", "rpartition", "strip", "lstrip", "rstrip", "lower",
+                                "upper", "startswith", "endswith", "count", "find", "index", "removeprefix", "removesuffix", "isspace"):
+                        r = getattr(recv, name)(*args, **kw)
+                        return list(r) if isinstance(r, list) else r
+                    if name == "join" and len(args) == 1 and isinstance(args[0], (list, tuple)):
+                        return recv.join(args[0])
+                except (TypeError, ValueError) as ex:
+                    raise _PyError(type(ex).__name__, str(ex))
+            if isinstance(recv, _Val) and name == "copy" and not args:
+                return recv.copy()
+            if isinstance(recv, list) and name in ("append", "extend", "pop") :
+                return getattr(recv, name)(*args)
+        raise Undecided(f"Units.convert_units: call `{u(c)[:60]}` is outside the interpreter's fragment")
+
+
+def _check_convert(ctx: Ctx, mod, cls, meths, known: set[str]):
+    """R2: Units.convert_units is interpreted on a handful of unit strings; the recorded arithmetic must be the definition
+    of the conversion.  Returns the parser model used by R4/R5/R6 for every literal unit string of the repo."""
     q = "Units.convert_units"
     if meths.get("convert_units") is None:
         raise AnchorError(f"{q} missing")
@@ -277,191 +660,66 @@ def _check_convert(ctx: Ctx, mod, cls, meths) -> tuple[bool, list[str]]:
     params = [a.arg for a in fn.args.args]
     if params[:4] != ["self", "value", "units", "to_si"]:
         raise AnchorError(f"{q}: signature changed: {params}")
-    VAL, UN, TOSI = params[1:4]
-    g = cfgmod.build(fn)
-    loops = [s for s in walk_local(fn) if isinstance(s, ast.For)]
-    if len(loops) != 1:
-        raise AnchorError(f"{q}: expected one loop over the unit components")
-    loop = loops[0]
-    # what happens to the unit string before the loop
-    strip_blanks = False
-    for s in fn.body:
-        if s.lineno >= loop.lineno:
-            break
-        if isinstance(s, ast.Assign) and u(s.targets[0]) == UN:
-            v = s.value
-            if (_is_call(v, "replace") and [u(a) for a in v.args] == ["' '", "''"] and u(v.func.value) == UN) or \
-                    (_is_call(v, "join") and u(v.func.value) == "''" and u(v.args[0]) == f"{UN}.split()") or \
-                    (_is_call(v, "sub") and len(v.args) == 3 and u(v.args[1]) == "''" and u(v.args[2]) == UN and "s" in u(v.args[0])):
-                strip_blanks = True
-            elif _is_call(v, "strip") and u(v.func.value) == UN:
-                pass  # outer blanks only
-            else:
-                raise Undecided(f"{q}: unit string is rewritten by `{u(s)}` before parsing: unknown idiom")
-    # shortcut
-    shortcuts: list[str] = []
-    for iff in [s for s in fn.body if isinstance(s, ast.If) and s.lineno < loop.lineno]:
-        t = iff.test
-        if isinstance(t, ast.Compare) and len(t.ops) == 1 and isinstance(t.ops[0], ast.In) and u(t.left) == UN:
-            coll = _literal_collection(mod, cls, fn, t.comparators[0])
+    P = UnitParser(mod, cls, fn, known)
+    U, Pw = _Unit, lambda n, p: _Op("**", _Unit(n), float(p))
+
+    def outcome(text, to_si, is_array=False):
+        try:
+            res, v0 = P.run(text, to_si, is_array)
+        except _PyError as e:
+            return ("raises", str(e)), None
+        if not isinstance(res, _Val):
+            return ("returns", repr(res)), None
+        return ("ops", res.ops), (res, v0)
+
+    def show(o):
+        return " ".join(f"{op} {f!r}" for op, f in o[1]) if o[0] == "ops" else f"{o[0]} {o[1]}"
+    cases = [
+        ("Pa", False, [("/", U("Pa"))], "SI -> simulation units divides by the unit"),
+        ("Pa", True, [("*", U("Pa"))], "to_si multiplies by the unit"),
+        ("m^-2", False, [("/", Pw("m", -2))], "name^power: getattr(self, name) ** float(power), name first"),
+        ("m^-2", True, [("*", Pw("m", -2))], "name^power with to_si"),
+        ("kg*m^-3", False, [("/", U("kg")), ("/", Pw("m", -3))], "one application per '*' component, in order"),
+        ("J*kg^-1*K^-1", True, [("*", U("J")), ("*", Pw("kg", -1)), ("*", Pw("K", -1))], "three components, to_si"),
+    ]
+    for text, to_si, want, why in cases:
+        o, _ = outcome(text, to_si)
+        ctx.check("R2", o == ("ops", want), mod, q, fn,
+                  f"convert_units(v, '{text}', to_si={to_si}) must compute v {' '.join(f'{op} {f!r}' for op, f in want)} ({why}); "
+                  f"the method computes v {show(o)}",
+                  construct=f"convert_units('{text}', to_si={to_si}) = v {show(o)}", facts={"expected": repr(want), "got": show(o)})
+    # blanks
+    o_b, _ = outcome("kg * m^-3", False)
+    strips = o_b == ("ops", [("/", U("kg")), ("/", Pw("m", -3))])
+    ctx.sample({"rule": "R2", "blanks_stripped": strips, "with_blanks": show(o_b)})
+    # dimensionless markers: literal strings the unit string is compared with
+    markers: list[str] = []
+    for n in walk_local(fn):
+        if isinstance(n, ast.Compare) and len(n.ops) == 1 and isinstance(n.ops[0], (ast.In, ast.NotIn)) and u(n.left) == params[2]:
+            coll = _literal_collection(mod, cls, fn, n.comparators[0])
             if coll is None:
-                raise Undecided(f"{q}: the collection of dimensionless markers `{u(t.comparators[0])}` is not a literal list "
-                                f"(local, class-level or module-level)")
-            shortcuts = [e.value for e in coll.elts if isinstance(e, ast.Constant)]
-            sc_ok = len(iff.body) == 1 and isinstance(iff.body[0], ast.Return) and u(iff.body[0].value) == VAL
-            ctx.check("R2", sc_ok, mod, q, iff, "dimensionless unit strings must return the value unchanged",
-                      construct=f"dimensionless shortcut {shortcuts} returns {u(iff.body[0].value) if isinstance(iff.body[0], ast.Return) and iff.body[0].value else '?'}")
-    # split on '*'
-    it = loop.iter
-    ok_split = isinstance(it, ast.Call) and call_name(it) == "split" and u(it.func.value) == UN and [u(a) for a in it.args] == ["'*'"]
-    if not (isinstance(it, ast.Call) and call_name(it) == "split" and u(it.func.value) == UN and len(it.args) == 1
-            and isinstance(it.args[0], ast.Constant)) or not isinstance(loop.target, ast.Name):
-        raise Undecided(f"{q}: component loop `for {u(loop.target)} in {u(it)}` not recognised")
-    ctx.check("R2", ok_split, mod, q, loop,
-              f"components are obtained by `{UN}.split('*')`; found `{u(it)}`", construct=f"component loop over {u(it).replace(UN, 'UNITS')}")
-    if not ok_split:
-        return strip_blanks, shortcuts
-    SUB = loop.target.id
-    # power arm: an if on `'^' in SUB` / `'^' not in SUB`
-    pw = None
-    for s in walk_local(loop):
-        if isinstance(s, ast.If) and isinstance(s.test, ast.Compare) and len(s.test.ops) == 1 \
-                and isinstance(s.test.ops[0], (ast.In, ast.NotIn)) and u(s.test.left) == "'^'" and u(s.test.comparators[0]) == SUB:
-            pw = s
-    if pw is None:
-        raise Undecided(f"{q}: the `'^' in component` arm was not found")
-    has_arm, plain_arm = (pw.body, pw.orelse) if isinstance(pw.test.ops[0], ast.In) else (pw.orelse, pw.body)
-    unpack = [s for s in has_arm if isinstance(s, ast.Assign) and isinstance(s.targets[0], ast.Tuple) and isinstance(s.value, ast.Call)
-              and call_name(s.value) in ("split", "partition") and u(s.value.args[0]) == "'^'"]
-    if len(unpack) != 1:
-        raise Undecided(f"{q}: `name, power = component.split('^')` not found")
-    tg = unpack[0].targets[0].elts
-    if call_name(unpack[0].value) == "partition":
-        if len(tg) != 3:
-            raise Undecided(f"{q}: partition unpacking not recognised")
-        NAME, POW = tg[0].id, tg[2].id
-    else:
-        if len(tg) != 2:
-            raise Undecided(f"{q}: split unpacking not recognised")
-        NAME, POW = tg[0].id, tg[1].id
-
-    def name_assigns(arm):
-        return {s_.targets[0].id: s_ for s_ in arm if isinstance(s_, ast.Assign) and len(s_.targets) == 1
-                and isinstance(s_.targets[0], ast.Name)}
-    a_has, a_plain = name_assigns(has_arm), name_assigns(plain_arm)
-    common = [n for n in a_has if n in a_plain]
-    if len(common) != 1:
-        raise Undecided(f"{q}: factor assignments of the two arms not recognised (assigned in both arms: {common})")
-    fac_p, fac_e = a_has[common[0]], a_plain[common[0]]
-    # temporaries of the exponent arm (e.g. base = getattr(self, name)) are folded into the factor expression
-    tmp = {n: s_.value for n, s_ in a_has.items() if n != common[0]}
-    if tmp:
-        from ..core.astutil import subst
-        fac_p = ast.copy_location(ast.Assign(targets=fac_p.targets, value=subst(fac_p.value, tmp)), fac_p)
-    FAC = fac_p.targets[0].id
-    fac_names = {FAC} | {s_.targets[0].id for s_ in walk_local(loop) if isinstance(s_, ast.Assign) and len(s_.targets) == 1
-                         and isinstance(s_.targets[0], ast.Name) and isinstance(s_.value, ast.Name) and s_.value.id == FAC}
-    roles = {NAME: "NAME", POW: "POW", SUB: "SUB"}
-
-    def canon(e):
-        import copy as _copy
-        e2 = _copy.deepcopy(e)
-        for n in ast.walk(e2):
-            if isinstance(n, ast.Name) and n.id in roles:
-                n.id = roles[n.id]
-        return u(e2)
-    # NAME may shadow SUB (the repo re-uses the loop variable): roles maps NAME first, so both print as NAME/SUB consistently
-    p_txt = canon(fac_p.value)
-    name_lbl = roles[NAME]
-    ok_p = p_txt == f"getattr(self, {name_lbl}) ** float(POW)" and u(unpack[0].value.func.value) == SUB
-    p_vocab_ok = set(names_in(fac_p.value)) <= {"getattr", "self", "float", NAME, POW, SUB}
-    if not ok_p and not p_vocab_ok:
-        raise Undecided(f"{q}: factor expression `{u(fac_p.value)}` not recognised")
-    ctx.check("R2", ok_p, mod, q, fac_p,
-              f"with an exponent the factor must be getattr(self, <name>) ** float(<power>) where <name>, <power> = component.split('^') "
-              f"(name first, power second); found `{u(fac_p.value)}` after `{u(unpack[0])}`",
-              construct=f"power arm: {canon(unpack[0].targets[0])} = {canon(unpack[0].value)}; {p_txt}")
-    e_txt = canon(fac_e.value)
-    if e_txt not in ("getattr(self, SUB)", "getattr(self, NAME)") and not set(names_in(fac_e.value)) <= {"getattr", "self", NAME, POW, SUB}:
-        raise Undecided(f"{q}: factor expression `{u(fac_e.value)}` not recognised")
-    ctx.check("R2", u(fac_e.value) == f"getattr(self, {SUB})", mod, q, fac_e,
-              f"without an exponent the factor must be `getattr(self, {SUB})`; found `{u(fac_e.value)}`",
-              construct=f"plain arm: {e_txt}")
-    # direction: if/else on to_si, or a conditional expression
-    dirs = [s for s in loop.body if isinstance(s, ast.If) and s is not pw and TOSI in names_in(s.test)]
-    ifexp = [s for s in loop.body if isinstance(s, ast.Assign) and u(s.targets[0]) == VAL and isinstance(s.value, ast.IfExp)
-             and TOSI in names_in(s.value.test)]
-
-    def polarity(t):
-        if isinstance(t, ast.Name) and t.id == TOSI:
-            return True
-        if isinstance(t, ast.UnaryOp) and isinstance(t.op, ast.Not) and u(t.operand) == TOSI:
-            return False
-        return None
-
-    def binop_of(e):
-        if isinstance(e, ast.BinOp) and u(e.left) == VAL and u(e.right) in fac_names:
-            return ("new", type(e.op).__name__)
-        return None
-
-    def op_of(body):
-        if len(body) != 1:
-            return None
-        s = body[0]
-        if isinstance(s, ast.AugAssign) and u(s.target) == VAL and u(s.value) in fac_names:
-            return ("aug", type(s.op).__name__)
-        if isinstance(s, ast.Assign) and u(s.targets[0]) == VAL:
-            return binop_of(s.value)
-        return None
-    if len(dirs) == 1 and not ifexp:
-        d = dirs[0]
-        pol = polarity(d.test)
-        if pol is None:
-            raise Undecided(f"{q}: direction test `{u(d.test)}` not recognised")
-        a_true, a_false = (op_of(d.body), op_of(d.orelse)) if pol else (op_of(d.orelse), op_of(d.body))
-    elif len(ifexp) == 1 and not dirs:
-        d = ifexp[0]
-        pol = polarity(d.value.test)
-        if pol is None:
-            raise Undecided(f"{q}: direction test `{u(d.value.test)}` not recognised")
-        a_true, a_false = (binop_of(d.value.body), binop_of(d.value.orelse)) if pol else (binop_of(d.value.orelse), binop_of(d.value.body))
-    else:
-        nested = [s for s in walk_local(loop) if isinstance(s, ast.If) and s is not pw and TOSI in names_in(s.test)]
-        if nested and len(nested) >= 1 and all(any(n is x for x in ast.walk(pw)) for n in nested):
-            ctx.check("R2", False, mod, q, nested[0],
-                      "the conversion must be applied once per component, directly in the component loop (not inside the exponent arm)",
-                      construct="direction arms placement")
-            return strip_blanks, shortcuts
-        raise Undecided(f"{q}: application of the factor (multiply / divide on `{TOSI}`) not recognised")
-    if a_true is None or a_false is None:
-        raise Undecided(f"{q}: direction arms are not `{VAL} *= {FAC}` / `{VAL} /= {FAC}`")
-    ctx.check("R2", a_true[1] == "Mult" and a_false[1] == "Div", mod, q, d,
-              f"to_si multiplies by the unit's size in SI, the other direction divides by the same factor; found to_si -> "
-              f"{a_true[1]}, otherwise -> {a_false[1]}", construct=f"to_si:{a_true[1]} else:{a_false[1]}")
-    after_factor = g.dominates(g.node_for(pw), g.node_for(d))
-    ctx.check("R2", after_factor, mod, q, d, "the factor of the component must be computed before it is applied",
-              construct="factor before application")
-    # aliasing: in-place update of an ndarray argument needs a copy first
-    if a_true[0] == "aug" or a_false[0] == "aug":
-        copies = [s for s in walk_local(fn) if isinstance(s, ast.Assign) and u(s.targets[0]) == VAL and isinstance(s.value, ast.Call)
-                  and ((call_name(s.value) == "copy" and u(s.value.func.value) == VAL)
-                       or (call_name(s.value) in ("copy", "array") and s.value.args and u(s.value.args[0]) == VAL))]
-        ok_copy = False
-        pmf = parent_map(fn)
-        for c in copies:
-            par = pmf.get(c)
-            guarded_ok = isinstance(par, ast.If) and isinstance(par.test, ast.Call) and call_name(par.test) == "isinstance" \
-                and u(par.test.args[0]) == VAL and "ndarray" in u(par.test.args[1]) and par in fn.body
-            if (c in fn.body or guarded_ok) and c.lineno < loop.lineno:
-                ok_copy = True
-        ctx.check("R2", ok_copy, mod, q, d,
-                  f"`{VAL} *= factor` updates an ndarray argument in place: the caller's array would be converted too. The value "
-                  f"must be copied (`{VAL} = {VAL}.copy()` for ndarrays) before the loop", construct="copy before in-place conversion")
-    ret = [s for s in fn.body if isinstance(s, ast.Return)]
-    ctx.check("R2", len(ret) == 1 and u(ret[0].value) == VAL and ret[0].lineno > loop.end_lineno, mod, q, ret[0] if ret else fn,
-              "the converted value is returned after all components were applied", construct="return after loop")
-    ctx.sample({"rule": "R2", "strip_blanks": strip_blanks, "shortcuts": shortcuts})
-    return strip_blanks, shortcuts
+                raise Undecided(f"{q}: the collection of dimensionless markers `{u(n.comparators[0])}` is not a literal list")
+            markers += [e.value for e in coll.elts if isinstance(e, ast.Constant) and isinstance(e.value, str)]
+        if isinstance(n, ast.Compare) and len(n.ops) == 1 and isinstance(n.ops[0], (ast.Eq, ast.NotEq)) and u(n.left) == params[2] \
+                and isinstance(n.comparators[0], ast.Constant) and isinstance(n.comparators[0].value, str):
+            markers.append(n.comparators[0].value)
+    for mk in sorted(set(markers)):
+        o, _ = outcome(mk, False)
+        ctx.check("R2", o == ("ops", []), mod, q, fn,
+                  f"a dimensionless value (unit string {mk!r}) must be returned unchanged; the method computes v {show(o)}",
+                  construct=f"convert_units({mk!r}) = v {show(o)}")
+    # aliasing: an ndarray argument must not be updated in place
+    o, pair = outcome("Pa", False, is_array=True)
+    if pair is None:
+        raise Undecided(f"{q}: ndarray case not interpretable: {show(o)}")
+    res, v0 = pair
+    ctx.check("R2", not v0.mutated_original and not v0.ops, mod, q, fn,
+              "an ndarray argument is updated in place (`value *= factor` without `value = value.copy()` first): the caller's "
+              "array would be converted too", construct=f"ndarray argument mutated: {bool(v0.mutated_original or v0.ops)}")
+    ctx.check("R2", o == ("ops", [("/", U("Pa"))]), mod, q, fn, f"ndarray input converts like a scalar; computes v {show(o)}",
+              construct=f"convert_units(array, 'Pa') = v {show(o)}")
+    ctx.sample({"rule": "R2", "markers": sorted(set(markers))})
+    return P, sorted(set(markers))
 
 
 def _is_call(e, name: str) -> bool:
@@ -712,18 +970,31 @@ def _check_constants(ctx: Ctx, us: UnitSystem, strip_blanks, shortcuts, unit_sit
     if tou is None:
         raise AnchorError("Constants.to_units missing")
     rets = [r for r in walk_local(tou) if isinstance(r, ast.Return)]
-    ok_tou = False
-    if len(rets) == 1 and isinstance(rets[0].value, ast.Call):
-        rc = rets[0].value
-        stars = [k.value for k in rc.keywords if k.arg is None]
-        un = kwarg(rc, "units")
-        fexpr = rc.func
-        if isinstance(fexpr, ast.Name):
-            dv = [s_.value for s_ in walk_local(tou) if isinstance(s_, ast.Assign) and u(s_.targets[0]) == fexpr.id]
-            fexpr = dv[0] if len(dv) == 1 else fexpr
-        ok_tou = u(fexpr) in ("type(self)", "self.__class__") and len(stars) == 1 and u(stars[0]) == "self.constants_in_SI" and un is not None \
-            and u(un) == tou.args.args[1].arg
-    ctx.check("R3", ok_tou, mmod, "Constants.to_units", rets[0] if rets else tou,
+    if len(rets) != 1 or rets[0].value is None:
+        raise Undecided("Constants.to_units: expected a single return")
+
+    def loc(e, depth=4):
+        """follow single-assignment locals (plain or annotated)"""
+        while isinstance(e, ast.Name) and depth > 0:
+            dv = [s_.value for s_ in walk_local(tou) if isinstance(s_, (ast.Assign, ast.AnnAssign)) and getattr(s_, "value", None) is not None
+                  and u(s_.targets[0] if isinstance(s_, ast.Assign) else s_.target) == e.id]
+            if len(dv) != 1:
+                break
+            e, depth = dv[0], depth - 1
+        return e
+    rc = loc(rets[0].value)
+    if not isinstance(rc, ast.Call) or u(loc(rc.func)) not in ("type(self)", "self.__class__"):
+        raise Undecided(f"Constants.to_units: returned object `{u(rc)[:60]}` is not a call of the instance's own class")
+    stars = [loc(k.value) for k in rc.keywords if k.arg is None]
+    un = kwarg(rc, "units")
+    if len(stars) != 1:
+        raise Undecided("Constants.to_units: constructor call without a single ** argument")
+    star_txt = u(stars[0])
+    if star_txt != "self.constants_in_SI" and not ("getattr(self" in star_txt or "asdict(self" in star_txt or "vars(self" in star_txt
+                                                     or "self.__dict__" in star_txt):
+        raise Undecided(f"Constants.to_units: ** argument `{star_txt[:60]}` not recognised")
+    ok_tou = star_txt == "self.constants_in_SI" and un is not None and u(loc(un)) == tou.args.args[1].arg
+    ctx.check("R3", ok_tou, mmod, "Constants.to_units", rets[0],
               "to_units must rebuild the object from the ORIGINAL SI values (**self.constants_in_SI) with the new units; passing "
               "already converted attributes converts twice", construct="to_units rebuilds from constants_in_SI")
     writers = set()
@@ -963,7 +1234,7 @@ def _check_constants_use(ctx: Ctx, us: UnitSystem, strip_blanks, shortcuts) -> N
 # =====================================================================================
 def run(ctx: Ctx) -> None:
     mod, cls, meths, us = _units_system(ctx)
-    strip_blanks, shortcuts = _check_convert(ctx, mod, cls, meths)
+    strip_blanks, shortcuts = _check_convert(ctx, mod, cls, meths, us.names())
     unit_sites: list = []
     info = _check_constants(ctx, us, strip_blanks, shortcuts, unit_sites)
     n_calls, n_nonlit = _collect_sites(ctx, unit_sites)
